@@ -267,7 +267,20 @@ def new_deque(ex, a, k):
     return ex.alloc(HSymList(ex.interp.as_seq(a[0])))
 
 
+def itertools_islice(ex, a, k):
+    """itertools.islice(it, stop): the first `stop` items of it (all of them if stop is None); start/step are not modelled"""
+    from .interp_data import VLazy
+    if len(a) != 2 or k:
+        raise Undecided('itertools.islice with start/step')
+    if a[1] is not NONE:
+        n = ex.interp.as_int(a[1], None, 'islice stop')
+        if not ex.branch(n >= 0, 'islice:stop>=0'):
+            raise_('ValueError')
+    return VLazy('islice', (a[0], a[1]))
+
+
 def install_common(ex):
+    ex.ext_models['itertools.islice'] = itertools_islice
     ex.ext_models['collections.deque'] = new_deque
     ex.abs_classes['Lock'] = _lock()
     ex.ext_models['copy.copy'] = copy_copy
